@@ -65,6 +65,19 @@ impl Prop for P19 {
                 let r = run_xargs(&self.sb, &o);
                 json!({"started": r.execs.len(), "exit": r.exit})
             }
+            // a command that does not exist matters only when it is to be run: with -r and no input nothing is run
+            // (status 0), and an input error found before the first dispatch is still the input error (status 1)
+            "notfound_norun" | "notfound_quote" => {
+                let stdin: Vec<u8> = if kind == "notfound_norun" { b" \n\n".to_vec() } else { b"a 'b\n".to_vec() };
+                let mut o = XOpts::new(&stdin);
+                o.opts = vec!["-r".into()];
+                o.cmd = Some(self.sb.path().join("no-such-command"));
+                let r = run_xargs(&self.sb, &o);
+                if looks_like_panic(&r) {
+                    return json!({"panic": true});
+                }
+                json!({"started": r.execs.len(), "exit": r.exit})
+            }
             _ => {
                 let (opts, stdin): (Vec<&str>, &[u8]) = match kind.as_str() {
                     "badopt" => (vec!["-n", "0"], b"a b\n"),
@@ -88,7 +101,7 @@ impl Prop for P19 {
 
     fn gen(&mut self, rng: &mut Rng, idx: usize, tier: &str) -> Value {
         if idx % 8 == 7 {
-            let k = *rng.pick(&["notfound", "notexec", "notexec_dir", "notexec_notdir", "notexec_loop", "badopt", "badopt2", "badopt3", "quote", "quote2", "toolong"]);
+            let k = *rng.pick(&["notfound", "notfound_norun", "notfound_quote", "notexec", "notexec_dir", "notexec_notdir", "notexec_loop", "badopt", "badopt2", "badopt3", "quote", "quote2", "toolong"]);
             return json!({"kind": k});
         }
         let len = if idx % 10 == 0 { rng.below(if tier == "thorough" { 200 } else { 60 }) } else { rng.below(9) };
